@@ -459,6 +459,12 @@ func (ep *ExportingProcess) dataRecSanityCheck(rec entities.Record) error {
 	if len(rec.GetBuffer()) < int(ep.templatesMap[templateID].minDataRecLen) {
 		return fmt.Errorf("process: Data Record does not pass the min required length (%d) check for template ID %d", ep.templatesMap[templateID].minDataRecLen, templateID)
 	}
+	// Do not send a record with a field that could not be encoded.
+	if r, ok := rec.(interface{ GetEncodingError() error }); ok {
+		if err := r.GetEncodingError(); err != nil {
+			return fmt.Errorf("process: Data Record for template ID %d cannot be encoded: %v", templateID, err)
+		}
+	}
 	return nil
 }
 
